@@ -279,3 +279,58 @@ func classifyRead(c ReadCase, model *Model, o *Obs) {
 		o.NonTrivial("")
 	}
 }
+
+// MaskSweepCase is one element of the exhaustive sweep of mask-position carry:
+// a message of N bytes in two fragments (A, N-A), read with a fixed read size.
+type MaskSweepCase struct {
+	Server bool `json:"server"`
+	N      int  `json:"n"`
+	A      int  `json:"a"`
+	Read   int  `json:"read"`
+	Chunk  int  `json:"chunk"`
+	Ctl    bool `json:"ctl"` // a ping between the fragments
+}
+
+func enumMaskSweep(yield func(MaskSweepCase) bool) {
+	idx := 0
+	n, k := shardCount(), shardIndex()
+	for _, server := range []bool{true, false} {
+		for N := 0; N <= 40; N++ {
+			for A := 0; A <= N; A++ {
+				for _, rd := range []int{1, 2, 3, 4, 5, 7, 8, 9, 16, 17, 64} {
+					for _, chunk := range []int{0, 1, 3} {
+						for _, ctl := range []bool{false, true} {
+							idx++
+							if (idx-1)%n != k {
+								continue
+							}
+							if !yield(MaskSweepCase{Server: server, N: N, A: A, Read: rd, Chunk: chunk, Ctl: ctl}) {
+								return
+							}
+						}
+					}
+				}
+			}
+		}
+	}
+}
+
+func checkMaskSweep(c MaskSweepCase, o *Obs) error {
+	m := SMsg{Op: 2, Data: Payload{Len: c.N, Kind: "counter", Seed: 3}, Frags: []int{c.A}, KeyMode: "rand"}
+	if c.Ctl {
+		m.Ctl = []SCtl{{At: 1, Op: 9, Data: Payload{Len: 5, Kind: "counter"}}}
+	}
+	rc := ReadCase{R: ConnCfg{Server: c.Server}, S: Stream{Msgs: []SMsg{m}, KeySeed: uint32(c.N*131 + c.A)}, Reads: []RStep{{Op: "reader", Sizes: []int{c.Read}, Abandon: -1}}}
+	if c.Chunk > 0 {
+		for i := 0; i < 80; i++ {
+			rc.Chunks = append(rc.Chunks, c.Chunk)
+		}
+	}
+	var inner Obs
+	if err := checkC03(rc, &inner); err != nil {
+		return err
+	}
+	o.Class("sweep_cell")
+	o.NonTrivial("")
+	return nil
+}
